@@ -34,6 +34,26 @@ var checkC13v3Fields = register("C13/v3fields", func(f fieldCase3) string {
 	return c13v3(e.Base.Score(), e.Temporal.Score(), e.Score(), f)
 })
 
+// the same relations on an object that held (and was asked about) other fields before: the
+// sweep below re-uses one object, and a mismatch a fresh object does not reproduce is
+// re-examined in this form instead of being dropped
+var checkC13v3Re = register("C13/v3reassigned", func(r reassignCase3) string {
+	if !inRange3(r.Prev) || !inRange3(r.Cur) {
+		return ""
+	}
+	e := build3(r.Prev)
+	e.Base.Score()
+	e.Temporal.Score()
+	e.Score()
+	bind.SetV3Base(e.Base, r.Cur.Ver, r.Cur.B)
+	bind.SetV3Temporal(e.Temporal, r.Cur.T)
+	bind.SetV3Env(e, r.Cur.E)
+	if m := c13v3(e.Base.Score(), e.Temporal.Score(), e.Score(), r.Cur); m != "" {
+		return "on an object queried before its fields were assigned: " + m
+	}
+	return ""
+})
+
 // decoded form: the environmental decoder reads the vector (X omitted or spelled out)
 var checkC13v3Decode = register("C13/v3decode", func(c scoreCase3) string {
 	ref, ok := spec.AcceptV3(c.Input, spec.Environmental)
@@ -89,12 +109,14 @@ var checkC13v2Decode = register("C13/v2decode", func(c scoreCase2) string {
 func TestC13(t *testing.T) {
 	c := begin(t, "C13")
 	defer c.end()
-	c.rec.F.Rule = "v3: all 518,400 version x base x temporal combinations as field-built objects with every environmental metric Not Defined (temporal <= base; all-X temporal == base; all-X environmental == temporal unless v3.1 and S:C) and all 5,184 base vectors through the environmental decoder with the optional metrics omitted and with X spelled out; v2: all 73,629 base x temporal vectors through Decode (temporal <= base, absent or all-ND group == base) and the Target Distribution None slice (quick: 4,000,000 seeded pseudo-random bijective sample of 729 x 101 x 384; thorough: complete 28,273,536). Non-trivial: base > 0 with a defined temporal metric (for <=), or an all-Not-Defined twin (for neutrality), or a TD:N vector with non-zero adjusted score potential; enumerated points are distinct by construction."
+	c.rec.F.Rule = "v3: all 518,400 version x base x temporal combinations as field-built objects with every environmental metric Not Defined (temporal <= base; all-X temporal == base; all-X environmental == temporal unless v3.1 and S:C) and all 5,184 base vectors through the environmental decoder with the optional metrics omitted and with X spelled out; v2: all 73,629 base x temporal vectors through Decode (temporal <= base, absent or all-ND group == base) and the Target Distribution None slice (quick: 4,000,000 seeded pseudo-random bijective sample of 729 x 101 x 384; thorough: complete 28,273,536). The v3 field sweep re-uses one object; a mismatch a fresh object does not reproduce is re-examined as an assign-after-query case. Non-trivial: base > 0 with a defined temporal metric (for <=), or an all-Not-Defined twin (for neutrality), or a TD:N vector with non-zero adjusted score potential; enumerated points are distinct by construction."
 	c.rec.F.Assumptions = []string{"metamorphic oracle: only relations between library scores are asserted"}
 	var evals, nt int64
 	nviol := 0
 	cl := map[string]int64{}
 	e := m3.NewEnvironmental()
+	var prev3 fieldCase3
+	havePrev := false
 	forEachV3Base(func(i int, x spec.V3Idx) {
 		if nviol > 0 || !mine(i) {
 			return
@@ -111,7 +133,11 @@ func TestC13(t *testing.T) {
 			}
 			if c13v3(bs, ts, es, f) != "" {
 				evalEnum(c, "v3fields", f.withText(), checkC13v3Fields, &nviol)
+				if havePrev && nviol == 0 {
+					evalEnum(c, "v3reassigned", reassignCase3{Prev: prev3.withText(), Cur: f.withText()}, checkC13v3Re, &nviol)
+				}
 			}
+			prev3, havePrev = f, true
 			if x.Ver == 1 && x.B[4] == 1 {
 				cl["v3.1+S:C (environmental neutrality not asserted)"]++
 			}
